@@ -21,3 +21,7 @@ open Pcore.Lat
 #print axioms C04_generalize_variant_partial
 #print axioms C04_common_partial
 #print axioms C04_common_full_fails_unit
+#print axioms C04_ptype_typ
+#print axioms C04_common_famT
+#print axioms C04_dtype_typ
+#print axioms C04_accepts_sound_typ
